@@ -112,6 +112,10 @@ def main():
     for f in ("patch.diff", "demo_test.go"):
         if os.path.exists(os.path.join(src, f)) and os.path.abspath(src) != os.path.abspath(dst):
             shutil.copy(os.path.join(src, f), os.path.join(dst, f))
+    if skip_suite:  # keep what an earlier full evaluation established about the existing suite
+        for k, v in (meta.get("verified") or {}).items():
+            if k.startswith("existing_suite") or k.startswith("suite_"):
+                verdict.setdefault(k, v)
     meta["verified"] = verdict
     meta["what_i_ran"] = "lib/seedeval.py: demo without/with the change in a scratch worktree, the touched module's `go test ./...` with the change, then ./check %s --repo <worktree> --tier %s" % (pid, tier)
     json.dump(meta, open(os.path.join(dst, "meta.json"), "w"), indent=1)
